@@ -332,6 +332,33 @@ def run(ctx):
     with ThreadPoolExecutor(max_workers=8) as ex:
         probes = dict(ex.map(lambda j: build(*j), jobs))
     nprobe = 0
+    # constants whose names are macros of the headers the generated file includes itself, or that the
+    # compiler predefines: in C the constant still evaluates to the IDL value (compiled without -Werror:
+    # the redefinition is a warning, and such names fall under C11's reserved-word clause there)
+    mnames = [("uint32", "SIZE_MAX", 4096), ("int16", "INT16_MIN", -1000), ("uint8", "UINT8_MAX", 7), ("uint32", "unix", 2), ("uint32", "linux", 3),
+              ("int32", "INT32_MAX", -5), ("uint64", "UINT64_MAX", 12345678901), ("uint16", "WCHAR_MAX", 9), ("uint32", "ordinary_name", 11)]
+    md = os.path.join(pd, "macronames")
+    os.makedirs(md, exist_ok=True)
+    open(os.path.join(md, "k.idl"), "w").write("".join("const %s %s = %d;\n" % x for x in mnames) +
+                                                 "interface IM {\n%s  method m();\n};\n" % "".join("  const %s %s = %d;\n" % (t, n, v + 1) for t, n, v in mnames[:3]))
+    rm = scrape.idlc_run(ctx["idlc"], os.path.join(md, "k.idl"), os.path.join(md, "k.h"))
+    if rm[0] == 0:
+        srcm = '#include <stdio.h>\n#include <stdint.h>\n#include <wchar.h>\n#include "k.h"\nint main(void){\n'
+        srcm += "".join('  printf("%s %%lld\\n", (long long)(%s));\n' % (n, n) for t, n, v in mnames)
+        srcm += "".join('  printf("IM_%s %%lld\\n", (long long)(IM_%s));\n' % (n, n) for t, n, v in mnames[:3])
+        srcm += "  return 0; }\n"
+        open(os.path.join(md, "p.c"), "w").write(srcm)
+        rcm, om, em_ = vlib.run(["gcc", "-std=gnu11", "-w", "-I" + os.path.join(TESTS, "c"), "-I" + md, os.path.join(md, "p.c"), "-o", os.path.join(md, "p")], timeout=120)
+        if rcm == 0:
+            rcm2, om, em_ = vlib.run([os.path.join(md, "p")], timeout=30)
+            got_ = dict(x.split() for x in om.strip().split("\n") if len(x.split()) == 2)
+            want_ = {n: v for t, n, v in mnames}
+            want_.update({"IM_" + n: v + 1 for t, n, v in mnames[:3]})
+            for n_, v_ in want_.items():
+                nprobe += 1
+                if n_ in got_ and int(got_[n_]) != v_:
+                    res["failures"].append({"property": prop, "constant": n_, "idl": open(os.path.join(md, "k.idl")).read(),
+                                            "what": "the C constant %s evaluates to %s, the IDL says %d (the name is also a macro of <stdint.h> / a compiler predefine)" % (n_, got_[n_], v_)})
     for tag, diffs in sorted(ub_diffs.items()):
         for dd in diffs[:3]:
             consts_ = [j for j in jobs if j[0] == tag][0][1]
